@@ -234,6 +234,7 @@ func runFree(g, rounds int, progs []program, alone []clipper.Paths64) *SchedEv {
 		e.Calls = append(e.Calls, ConcCall{Proc: pi + 1, Api: p.api, Out: o, Same: !bad[p.api]})
 	}
 	e.InputsSame = equalPaths(s0, fromPaths64(concSubj)) && equalPaths(c0, fromPaths64(concClip))
+	runPkg(e, g, (rounds+7)/8)
 	e.Nontriv = true
 	return e
 }
